@@ -6,6 +6,7 @@ import (
 	"os"
 	"path/filepath"
 	"slices"
+	"strings"
 
 	"github.com/dcaiafa/lox/internal/ast"
 	"github.com/dcaiafa/lox/internal/lexergen/mode"
@@ -17,10 +18,18 @@ const LoxFileExtension = ".lox"
 
 // parseLox parses and checks all .lox files in the project directory.
 func (c *context) ParseLox() bool {
-	loxFiles, err := filepath.Glob(filepath.Join(c.Dir, "*"+LoxFileExtension))
+	// The directory's name is taken literally: characters such as '[' or '*' in
+	// it are not a pattern (filepath.Glob would treat them as one).
+	entries, err := os.ReadDir(c.Dir)
 	if err != nil {
 		c.Errs.GeneralError(err)
 		return false
+	}
+	var loxFiles []string
+	for _, entry := range entries {
+		if !entry.IsDir() && strings.HasSuffix(entry.Name(), LoxFileExtension) {
+			loxFiles = append(loxFiles, filepath.Join(c.Dir, entry.Name()))
+		}
 	}
 
 	if len(loxFiles) == 0 {
